@@ -80,8 +80,7 @@ def c03_digests(ctx, mask, hs, ps, md5_len=16, sha1_len=40, sha256_len=64, pd_le
         k, v = out
 
         def wit():
-            assert e.solver.check() == z3.sat
-            m = e.solver.model()
+            m = e.witness_model()
             g = lambda xs: bytes(m.eval(x, model_completion=True).as_long() for x in xs).hex()  # noqa: E731
             return dict(md5=g(inp["md5"]), sha1=g(inp["sha1"]), sha256=g(inp["sha256"]), pd=g(inp["pd"]),
                         algo=m.eval(inp["algo"], model_completion=True).as_long(), store=g(inp["store"]), content=g(inp["content"]))
@@ -344,7 +343,9 @@ def check_getters(ctx, e, h, ent, wit):
         fn = ctx.impl_fn(g, None, "Header")
         r = e.call_fn(fn, [Ref(Cell(h)), tagv])
         ra = e.call_fn(fn, [Ref(Cell(h)), absent])
-        if ra.variant != "Err" or not (isinstance(ra.fields[0], Adt) and ra.fields[0].variant == "TagNotFound"):
+        # "absent" only where no entry of this header can carry that tag (headers with a second entry have a second symbolic tag)
+        may_be_present = any(e._check(x.fields[0].e == 1001) for x in h.fields[1].items)
+        if not may_be_present and (ra.variant != "Err" or not (isinstance(ra.fields[0], Adt) and ra.fields[0].variant == "TagNotFound")):
             ctx.fail("getter returns something for an absent tag", g, kind="c05", input=wit())
         right = data.variant in types
         if g in ("get_entry_data_as_u32", "get_entry_data_as_u64", "get_entry_data_as_i18n_string") and right and not data.fields[0].items:
@@ -357,6 +358,7 @@ def check_getters(ctx, e, h, ent, wit):
         v = intrinsics.deref_all(e, r.fields[0])
         payload = data.fields[0]
         ok_ = True
+        badc = None
         if g in ("get_entry_data_as_binary",):
             ok_ = not e._check(z3.Not(intrinsics2._eq_any(e, v, payload))) if as_bytes(e, payload) or as_bytes(e, v) else len(as_bytes(e, v)) == len(as_bytes(e, payload))
         elif g == "get_entry_data_as_string":
@@ -366,16 +368,26 @@ def check_getters(ctx, e, h, ent, wit):
             a, b = intrinsics.as_str(e, v).bytes(), intrinsics.as_str(e, payload.items[0]).bytes()
             ok_ = len(a) == len(b) and not (a and e._check(z3.Not(all_eq(a, b))))
         elif g in ("get_entry_data_as_u32", "get_entry_data_as_u64"):
-            ok_ = not e._check(v.e != payload.items[0].e)
+            badc = v.e != payload.items[0].e
+            ok_ = not e._check(badc)
         elif g == "get_entry_data_as_string_array":
             gi = [intrinsics.as_str(e, x).bytes() for x in v.items]
             pi = [intrinsics.as_str(e, x).bytes() for x in payload.items]
             ok_ = len(gi) == len(pi) and all(len(a) == len(b) and not (a and e._check(z3.Not(all_eq(a, b)))) for a, b in zip(gi, pi))
         else:
             gi, pi = [x.e for x in v.items], [x.e for x in payload.items]
+            if len(gi) == len(pi) and gi:
+                badc = z3.Not(z3.And([a == b for a, b in zip(gi, pi)]))
             ok_ = len(gi) == len(pi) and not (gi and e._check(z3.Not(z3.And([a == b for a, b in zip(gi, pi)]))))
         if not ok_:
-            ctx.fail("getter %s returns a value different from the entry's data" % g, g, kind="c05", input=wit())
+            # the witness must be an input on which the difference shows (not just any input of this path)
+            if badc is not None:
+                e.solver.push()
+                e.solver.add(badc)
+            w_ = wit()
+            if badc is not None:
+                e.solver.pop()
+            ctx.fail("getter %s returns a value different from the entry's data" % g, g, kind="c05", input=w_)
 
 
 def hdr_parse(ctx, rest_len, extra, which="IndexTag", ascii_store=True, fix_intro=False, kinds=None, fix_tag=None, fix_types=None, fix_counts=None):
@@ -852,7 +864,12 @@ def _chain(ex, args, f):
 def _verify(ex, args, f):
     v = intrinsics.deref_all(ex, args[0])
     d = intrinsics.deref_all(ex, args[1])
-    data = d.bs if isinstance(d, CursorV) else as_bytes(ex, d)
+    if isinstance(d, CursorV):
+        # a verifier reads its data through io::Read: it sees what is LEFT in the reader and leaves it drained
+        data = list(d.data[d.pos:])
+        d.pos = len(d.data)
+    else:
+        data = as_bytes(ex, d)
     sig = as_bytes(ex, args[2])
     acc = z3.Bool("accept_%d" % len(v.calls))
     a = ex.decide(acc)
@@ -949,8 +966,7 @@ def c02_verify(ctx, shapes, with_digest, with_sha1=False):
             k, v = out
 
             def wit():
-                assert e.solver.check() == z3.sat
-                m = e.solver.model()
+                m = e.witness_model()
                 g = lambda xs: bytes(m.eval(x, model_completion=True).as_long() for x in xs).hex()  # noqa: E731
                 return dict(shape="/".join(shape), content=g(inp["content"]), rsa=g(inp["rsa"]), dsa=g(inp["dsa"]), pgp=g(inp["pgp"]),
                             b64=[g(x) for x in inp["b64"]], sha256=g(inp["sha256"]), digest=(with_digest is not False), sha1=bool(with_sha1),
@@ -1219,8 +1235,7 @@ def c09_from_entries(ctx, variants, counts, which="IndexTag", region="RPMTAG_HEA
         tags, pls = inp
 
         def wit():
-            assert e.solver.check() == z3.sat
-            m = e.solver.model()
+            m = e.witness_model()
 
             def ev(x):
                 return m.eval(x, model_completion=True).as_long()
@@ -1532,8 +1547,7 @@ def c14_write(ctx, k, what="package", mode="fail", sigsz=5):
         kk, v = out
 
         def wit():
-            assert e.solver.check() == z3.sat
-            m = e.solver.model()
+            m = e.witness_model()
             return dict(fail_at=m.eval(inp["fail_at"], model_completion=True).as_long(), intr_at=m.eval(inp["intr_at"], model_completion=True).as_long(), k=k, what=what, sigsz=sigsz, mode=mode)
         if kk != "return":
             ctx.fail("writing panics: %s" % (v,), what + "::write", kind="wpanic", **wit())
@@ -1629,10 +1643,16 @@ def c05_file_paths(ctx, nfiles, ndirs, missing=None, kinds=("c05", "panic")):
     def on_path(e, inp, out):
         k, v = out
 
-        def wit():
-            assert e.solver.check() == z3.sat
-            m = e.solver.model()
-            return dict(idx=[m.eval(x, model_completion=True).as_long() for x in inp["idx"]], nfiles=nfiles, ndirs=ndirs, missing=missing or "")
+        def wit(under=None):
+            # `under`: the condition that makes this input a counterexample (the witness must satisfy it, not just the path condition)
+            if under is not None:
+                e.solver.push()
+                e.solver.add(under)
+            m = e.witness_model()
+            w_ = dict(idx=[m.eval(x, model_completion=True).as_long() for x in inp["idx"]], nfiles=nfiles, ndirs=ndirs, missing=missing or "")
+            if under is not None:
+                e.solver.pop()
+            return w_
         if k != "return":
             ctx.fail("file path assembly panics: %s" % (v,), "PackageMetadata::get_file_paths", kind="panic", **wit())
             return
@@ -1646,7 +1666,7 @@ def c05_file_paths(ctx, nfiles, ndirs, missing=None, kinds=("c05", "panic")):
         inrange = z3.And([z3.ULT(x, ndirs) for x in inp["idx"]]) if nfiles else z3.BoolVal(True)
         if v.variant == "Ok":
             if e._check(z3.Not(inrange)):
-                ctx.fail("file paths returned although a directory index is out of range", "PackageMetadata::get_file_paths", kind="c05", **wit())
+                ctx.fail("file paths returned although a directory index is out of range", "PackageMetadata::get_file_paths", kind="c05", **wit(z3.Not(inrange)))
                 return
             got = v.fields[0].items
             if len(got) != nfiles:
@@ -1662,7 +1682,7 @@ def c05_file_paths(ctx, nfiles, ndirs, missing=None, kinds=("c05", "panic")):
                         break
         else:
             if e._check(inrange) and not e._check(z3.Not(inrange)):
-                ctx.fail("error although every directory index is in range", "PackageMetadata::get_file_paths", kind="c05", **wit())
+                ctx.fail("error although every directory index is in range", "PackageMetadata::get_file_paths", kind="c05", **wit(inrange))
             er = v.fields[0]
             if not (isinstance(er, Adt) and er.variant == "InvalidTagIndex"):
                 ctx.fail("out-of-range directory index reported as %s" % getattr(er, "variant", er), "PackageMetadata::get_file_paths", kind="c05", **wit())
